@@ -279,6 +279,20 @@ class ExprMixin:
         return self.get_member(o, attr, p, R, node)
 
     def get_attr_other(self, o, attr, p, R, node):
+        if o.tag == "super":
+            recv = o.z
+            mro = self.src.mro(self.node_class_for(recv, p))
+            # continue the lookup after the class that defines the function under verification
+            own = self.qual.split(".")[-2]
+            rest = mro[mro.index(own) + 1:] if own in mro else mro[1:]
+            for c in rest:
+                defcls, fd = self.src.class_member(c, attr)
+                if fd is not None:
+                    qual = self.src.qualname(defcls, fd)
+                    if self.src.is_property(fd):
+                        return self.call_repo(qual, recv, [], {}, p, R, node)
+                    return [(p, SV("bound", (recv, defcls, qual)))]
+            raise Unsupported(f"super().{attr}")
         if o.tag in ("lref", "dref", "cls", "str", "val", "func", "clsof"):
             return [(p, SV("method", (o, attr)))]
         raise Unsupported(f"attribute {attr} of {o.tag} (line {getattr(node, 'lineno', '?')})")
@@ -322,6 +336,18 @@ class ExprMixin:
         deciding operand (Python semantics), which matters for `res = res or n`."""
         is_or = isinstance(e.op, ast.Or)
         outs = []
+        if getattr(self, "pure_bool", False):
+            # inside a quantified condition: combine truth values symbolically, no forking
+            acc = None
+            q = p
+            for sub in e.values:
+                r = self.ev(sub, q, R)
+                if len(r) != 1:
+                    raise Unsupported("condition forks")
+                q, v = r[0]
+                t = self.truthy(v, q)
+                acc = t if acc is None else (Or(acc, t) if is_or else And(acc, t))
+            return [(q, BoolV(acc))]
 
         def rec(i, q):
             for q2, v in self.ev(e.values[i], q, R):
@@ -482,7 +508,11 @@ class ExprMixin:
             bad.assume(Not(ok))
             R.append((bad, ExcV("IndexError", site=f"L{line}")))
             p.assume(ok)
-            idx = If(iz < 0, iz + n, iz)
+            izs = z3.simplify(iz)
+            if z3.is_int_value(izs):
+                idx = (n + izs.as_long()) if izs.as_long() < 0 else izs
+            else:
+                idx = If(iz < 0, iz + n, iz)
             return [(p, RefV(h.litem(c.z, idx), "Node"))]
         if c.tag == "dref":
             k = self.to_sort(i, L.Val)
@@ -547,6 +577,8 @@ class ExprMixin:
         raise Unsupported("starred expression")
 
     def ev_Call(self, e, p, R):
+        if isinstance(e.func, ast.Name) and e.func.id == "super" and not e.args and "super" not in p.env:
+            return [(p, SV("super", p.env["self"]))]
         return self.call(e, p, R)
 
     def ev_NamedExpr(self, e, p, R):
